@@ -31,6 +31,7 @@ func runC02(c *Ctx) {
 	ruleDestructiveWriters(c, "R2.5")
 	ruleLayersPropagateFailure(c, "R2.6")
 	ruleErrorsOfPersistenceChecked(c, "R2.8", "internal/chain", "internal/core")
+	ruleResyncDecidedByRequest(c, "R2.1")
 	ruleMemDB(c, "R2.7") // the in-memory back-end keeps the newest rounds, ordered and without duplicates
 }
 
@@ -538,4 +539,49 @@ func ruleDestructiveWriters(c *Ctx, rule string) {
 		})
 	}
 	c.Floor(rule, "callers of Store.Del", n, 1)
+}
+
+// ruleResyncDecidedByRequest: whether a sync may write through the unchecked store (re-sync: from > 0) is decided by whoever
+// built the request. Sync hands the request's own from / upTo to every peer attempt and never rewrites them: a from derived
+// from the store's head inside the fail-over loop turns an ordinary sync into a "repair" that bypasses the append and
+// scheme layers.
+func ruleResyncDecidedByRequest(c *Ctx, rule string) {
+	sy := c.P.Fn("internal/chain/beacon.(*SyncManager).Sync")
+	if !c.Anchor(rule, "internal/chain/beacon.(*SyncManager).Sync", sy != nil) {
+		return
+	}
+	var req *ssa.Parameter
+	for _, p := range sy.Params {
+		if typeShort(p.Type()) == "internal/chain/beacon.RequestInfo" {
+			req = p
+		}
+	}
+	if req == nil {
+		c.Ok(rule, "Sync takes the request by value", c.P.Pos(sy.Pos()), false, "no RequestInfo parameter")
+		return
+	}
+	rewritten := ""
+	for _, f := range withClosures(sy) {
+		forEachInstr(f, func(_ *ssa.BasicBlock, _ int, in ssa.Instruction) {
+			st, ok := in.(*ssa.Store)
+			if !ok {
+				return
+			}
+			if fa, isFA := st.Addr.(*ssa.FieldAddr); isFA && typeShort(fa.X.Type()) == "internal/chain/beacon.RequestInfo" {
+				fn := fieldName(fa.X.Type(), fa.Field)
+				if fn == "from" || fn == "upTo" {
+					rewritten = fn + " at " + shortPos(c.P, in)
+				}
+			}
+		})
+	}
+	c.Ok(rule, "Sync never rewrites the request's from / upTo", c.P.Pos(sy.Pos()), rewritten == "", ifStr(rewritten != "", "request."+rewritten+" is assigned inside Sync"))
+	n := 0
+	for _, ci := range callsIn(sy, func(ci ssa.CallInstruction) bool { return strings.HasSuffix(calleeName(ci), "SyncManager).tryNode") }) {
+		n++
+		a := ci.Common().Args
+		okArgs := len(a) >= 4 && pathOf(a[2]) == req.Name()+".from" && pathOf(a[3]) == req.Name()+".upTo"
+		c.Ok(rule, "every peer attempt gets the request's own from and upTo", shortPos(c.P, ci), okArgs, fmt.Sprintf("tryNode(ctx, %s, %s, peer)", pathOf(a[2]), pathOf(a[3])))
+	}
+	c.Floor(rule, "tryNode calls in Sync", n, 1)
 }
